@@ -91,13 +91,16 @@ func runReduce(a vc.Args) {
 		r := vc.TraceRand(a.Seed, id)
 		rc.TraceID = id - 1
 		rc.Reset(rec.M{"family": "gov", "kind": "reduce", "id": id, "layouts": lays, "seeds": nSeeds}, nil)
-		for _, lay := range lays {
-			reduceLayout(rc, r, lay, nSeeds)
+		for i, lay := range lays {
+			// the companion of a layout = its neighbour in the group: the other selection of the same
+			// view change (sharders, then miners), made in the same process with the same seed
+			comp := lays[(i+len(lays)-1)%len(lays)]
+			reduceLayout(rc, r, lay, comp, nSeeds)
 		}
 	}
 }
 
-func reduceLayout(rc *rec.Recorder, r *rand.Rand, lay layout, nSeeds int) {
+func reduceLayout(rc *rec.Recorder, r *rand.Rand, lay, comp layout, nSeeds int) {
 	names := make([]string, 0, len(lay.Stake))
 	for n := range lay.Stake {
 		names = append(names, n)
@@ -112,6 +115,10 @@ func reduceLayout(rc *rec.Recorder, r *rand.Rand, lay layout, nSeeds int) {
 	}
 	var ords [2][]string
 	var runs [2][2][]int
+	// sess[lab][k]: the "one view change in one process" pass - per seed the companion layout and
+	// then this layout TWICE (DKG restart / block replay on the same previous magic block) are
+	// reduced back to back with the same seed; k = first / second call on this layout
+	var sess [2][2][]int
 	mxSeen := map[int]bool{}
 	for lab := 0; lab < 2; lab++ {
 		// fresh random ids; name relabel[lab][i] gets the i-th smallest id
@@ -131,27 +138,49 @@ func reduceLayout(rc *rec.Recorder, r *rand.Rand, lay layout, nSeeds int) {
 		for _, n := range lay.Prev {
 			prev[idOf[n]] = true
 		}
+		// one call of the real reduce on layout l (candidates handed over in a random order:
+		// insertion order must not matter); result as a bit mask over the names
+		call := func(l layout, lnames []string, lprev map[string]bool, seed int64) (int, int) {
+			order := r.Perm(len(lnames))
+			cids := make([]string, len(lnames))
+			stakes := make([]uint64, len(lnames))
+			for i, j := range order {
+				cids[i] = idOf[lnames[j]]
+				stakes[i] = l.Stake[lnames[j]]
+			}
+			mx, sel := safeReduce(cids, stakes, lprev, l.Limit, float64(l.Pct)/100, seed)
+			mask := 0
+			for _, sid := range sel {
+				n, ok := nameOf[sid]
+				if !ok {
+					rec.Fatal("reduce returned an id that was not a candidate: %s", sid)
+				}
+				mask |= nameBit(n)
+			}
+			return mx, mask
+		}
 		for run := 0; run < 2; run++ {
 			for _, seed := range seeds {
-				// candidates handed over in a random order (insertion order must not matter)
-				order := r.Perm(len(names))
-				cids := make([]string, len(names))
-				stakes := make([]uint64, len(names))
-				for i, j := range order {
-					cids[i] = idOf[names[j]]
-					stakes[i] = lay.Stake[names[j]]
-				}
-				mx, sel := safeReduce(cids, stakes, prev, lay.Limit, float64(lay.Pct)/100, seed)
+				mx, mask := call(lay, names, prev, seed)
 				mxSeen[mx] = true
-				mask := 0
-				for _, sid := range sel {
-					n, ok := nameOf[sid]
-					if !ok {
-						rec.Fatal("reduce returned an id that was not a candidate: %s", sid)
-					}
-					mask |= nameBit(n)
-				}
 				runs[lab][run] = append(runs[lab][run], mask)
+			}
+		}
+		cnames := make([]string, 0, len(comp.Stake))
+		for n := range comp.Stake {
+			cnames = append(cnames, n)
+		}
+		sort.Strings(cnames)
+		cprev := map[string]bool{}
+		for _, n := range comp.Prev {
+			cprev[idOf[n]] = true
+		}
+		for _, seed := range seeds {
+			call(comp, cnames, cprev, seed)
+			for k := 0; k < 2; k++ {
+				mx, mask := call(lay, names, prev, seed)
+				mxSeen[mx] = true
+				sess[lab][k] = append(sess[lab][k], mask)
 			}
 		}
 	}
@@ -169,6 +198,7 @@ func reduceLayout(rc *rec.Recorder, r *rand.Rand, lay layout, nSeeds int) {
 	cls := classify(lay, names)
 	rc.Emit(rec.M{"ev": "Reduce", "stake": st, "prev": prevNames, "limit": lay.Limit, "pct": lay.Pct,
 		"ord1": ords[0], "ord2": ords[1], "r1a": runs[0][0], "r1b": runs[0][1], "r2a": runs[1][0], "r2b": runs[1][1],
+		"s1a": sess[0][0], "s1b": sess[0][1], "s2a": sess[1][0], "s2b": sess[1][1],
 		"mx": mx, "tie": cls.tie, "tie_head": cls.head},
 		fmt.Sprintf("x%d/y%d/tie=%v/head=%v", cls.x, cls.y, cls.tie, cls.head), cls.tie)
 }
